@@ -52,6 +52,10 @@ pub fn judge(ctx: &mut Ctx, layer: &'static Layer, depth: u8, lon: f64, lat: f64
   if let Some((h, ox, oy)) = built { mk = mk.u("h", h).f("ox", ox).f("oy", oy); }
   ctx.eval();
   let r = match catch(|| layer.bilinear_interpolation(lon, lat)) { Ok(r) => r, Err(p) => { ctx.violation("bilinear_interpolation-panics-on-valid-position", mk, p); return; } };
+  // the free function named in the statement is the same computation
+  if (lon.to_bits() ^ lat.to_bits()) % 4 == 0 { ctx.eval(); match catch(|| nested::bilinear_interpolation(depth, lon, lat)) {
+    Err(p) => ctx.violation("bilinear_interpolation-panics-on-valid-position", mk.clone().b("free_fn", true), p),
+    Ok(f) => if (0..4).any(|k| f[k].0 != r[k].0 || f[k].1.to_bits() != r[k].1.to_bits()) { ctx.violation("free-function-differs-from-Layer-method", mk.clone().b("free_fn", true), format!("{:?} vs {:?}", f, r)); } } }
   let ns = nside(depth) as f64;
   let sum: f64 = r.iter().map(|c| c.1).sum();
   if r.iter().any(|c| !(c.1 >= -1e-12) || !c.1.is_finite()) { ctx.violation("negative-or-non-finite-weight", mk.clone(), format!("{:?}", r)); }
